@@ -23,7 +23,7 @@ CHUNK = 2
 
 PNE = ['4,1', '2.5,0', '0,0', '0,0']
 RES = [1024, 256, 1000, 1024]
-GAIN = [None, None, 2.0, None]
+GAIN = [4.0, None, 2.0, None]           # (the first channel is log-amplified AND records a gain: used when the caller declares it linear)
 FILE_AT = [(4.0, 1.0), (2.5, 1.0), (0.0, 0.0), (0.0, 0.0)]
 NAMES = ['CH1', 'CH2', 'CH3', 'CH4']
 ATM = [(0, 0), (3, 1), (1.5, 2), None, (0, 1), (0, 2.5)]          # zero decades = linear amplifier, whatever the offset field says
@@ -40,7 +40,7 @@ PNE_SPELLINGS = [PNE, ['4.0,1.0', '2.5,0.0', '0.0,0.0', '0,0.0'], ['4.00,1', '2.
 def sample(variant=0):
     import FlowCal
     events = [[i % r for r in RES] for i in range(1024)]
-    extra = [('$P3G', ['2.0', '2', '2.00', '2.'][variant])]
+    extra = [('$P3G', ['2.0', '2', '2.00', '2.'][variant]), ('$P1G', ['4.0', '4', '4.00', '4.'][variant])]
     lay = dict(datatype='I', bits=[16] * 4, ranges=RES, pne=PNE_SPELLINGS[variant], events=events, byteord='4,3,2,1', extra=extra)
     p = os.path.join(scratch(), 'c03_%d.fcs' % variant)
     if not os.path.exists(p):
@@ -94,6 +94,7 @@ def cases(tier, seed):
     for first in GAIN_MENU:
         yield dict(kind='gainfile', vendor=False, first=first, tier=tier, where='stext')
     yield dict(kind='refuse', tier=tier)
+    yield dict(kind='case', tier=tier)
 
 
 def bounds(tier, seed):
@@ -330,6 +331,38 @@ def run_case(c):
                 if expect_ok(res, 'vendor', what, dv, vbase, t, {j: (lambda x, g=gains[j]: x / g) for j in cols}, dict(c)):
                     res.ok('vendor', True)
             res.sample({'channels': nch, 'gains': 'CytekP01G..CytekP%02dG' % nch})
+        elif c['kind'] == 'case':
+            # channel names that differ only in letter case are different channels ($PnN is case sensitive), each with its own amplifier
+            cnames = ['FL1-H', 'FL1-h', 'fl1-H', 'FL2-H', 'fl2-h']
+            lay = dict(datatype='I', bits=[16] * 5, ranges=[1024] * 5, names=cnames, pne=['4,1', '0,0', '2,0.5', '0,0', '3,1'], byteord='4,3,2,1',
+                       events=[[(37 * i + 11 * j) % 1024 for j in range(5)] for i in range(16)] + [[0] * 5, [1023] * 5],
+                       extra=[('$P2G', '8.0'), ('$P4G', '0.5')])
+            pc = os.path.join(scratch(), 'c03_case.fcs')
+            buf, _ = fcsgen.build(lay)
+            with open(pc, 'wb') as f:
+                f.write(buf)
+            dc = FlowCal.io.FCSData(pc)
+            cbase = np.array(dc.view(np.ndarray))
+            claws = {0: lambda x: 1.0 * 10 ** (4.0 * x / 1024.0), 1: lambda x: x / 8.0, 2: lambda x: 0.5 * 10 ** (2.0 * x / 1024.0), 3: lambda x: x / 0.5,
+                     4: lambda x: 1.0 * 10 ** (3.0 * x / 1024.0)}
+            reqs = [(n_, [j]) for j, n_ in enumerate(cnames)] + [([cnames[1], cnames[0]], [1, 0]), ([cnames[4], cnames[2], cnames[3]], [4, 2, 3]), (None, [0, 1, 2, 3, 4]),
+                                                                (list(reversed(cnames)), [4, 3, 2, 1, 0])]
+            for req, cols in reqs:
+                what = 'to_rfi(sample with channels %r, %r)' % (cnames, req)
+                try:
+                    t = to_rfi(dc, req)
+                except Exception as e:
+                    res.violation('case:raises:%s' % type(e).__name__, '%s raised %s: %s' % (what, type(e).__name__, e), dict(c))
+                    continue
+                if expect_ok(res, 'case', what, dc, cbase, t, {j: claws[j] for j in cols}, dict(c)):
+                    res.ok('case', True)
+            for bad in ('FL1-h '.strip() + 'x', 'FL2-h', 'Fl1-H', 'FL1-H '):
+                try:
+                    to_rfi(dc, bad)
+                    res.violation('case:unknown-accepted', 'to_rfi(sample with channels %r, %r): a name the sample does not have was accepted' % (cnames, bad), dict(c))
+                except Exception:
+                    res.ok('case:refused', True)
+            res.sample({'channel names': cnames})
         elif c['kind'] == 'gainfile':
             lin = [0, 1, 3, 4]                   # column 2 is a log amplifier
             nfile = 0
